@@ -13,7 +13,7 @@ import (
 	"verifharness/internal/val"
 )
 
-var c20Floor = []string{"set", "get", "get.unset", "get.after-set-same-row", "get.before-set-same-row", "set.overwrite", "set.expr", "set.literal", "where", "prepopulated", "queries.2", "queries.3+", "keys.multi", "table.empty", "dual", "prebuilt", "order.projected", "order.unprojected", "grouped", "grouped.having", "get.subquery", "opt.callback", "keys.numeric", "union.derived-right", "union.cte-right", "union.nested-right", "union.plain", "reexec.register-where", "multidim.register-where", "literal.whitespace"}
+var c20Floor = []string{"set", "get", "get.unset", "get.after-set-same-row", "get.before-set-same-row", "set.overwrite", "set.expr", "set.literal", "where", "prepopulated", "queries.2", "queries.3+", "keys.multi", "table.empty", "dual", "prebuilt", "order.projected", "order.unprojected", "grouped", "grouped.having", "get.subquery", "opt.callback", "keys.numeric", "union.derived-right", "union.cte-right", "union.nested-right", "union.plain", "reexec.register-where", "multidim.register-where", "literal.whitespace", "set.case-arm", "distinct"}
 
 func init() {
 	fw.Register(&fw.Prop{
@@ -63,7 +63,10 @@ func execBuilt(q *genql.Query) (out Outcome) {
 }
 
 type c20Item struct {
-	kind  string // set get col
+	cond  gen.Pred // caseset: CASE WHEN cond THEN SETVAR(key, expr) ELSE SETVAR(key2, expr2) END
+	key2  string
+	expr2 gen.Expr
+	kind  string // set get col caseset
 	key   string
 	expr  gen.Expr
 	alias string
@@ -130,6 +133,18 @@ func c20Run(c *fw.Case) {
 	pg := &gen.PredGen{R: c.R, T: t, MaxDepth: 1, Disable: map[string]bool{"in.subquery": true, "isnull": true, "isnotnull": true}}
 	eg := &gen.ExprGen{R: c.R, T: t, MaxDepth: 2, NumRefs: []string{"n1", "n2"}}
 	doc := DocOf(t)
+	// d1: rows without an identity, so that whole rows repeat (not next to each other)
+	var d1 []map[string]any
+	if len(t.Rows) > 0 {
+		var d1any []any
+		for i := 0; i < 3+c.Intn(8); i++ {
+			proto := t.Rows[c.Intn(min(3, len(t.Rows)))]
+			r := map[string]any{"b1": proto["b1"], "s1": proto["s1"]}
+			d1 = append(d1, r)
+			d1any = append(d1any, r)
+		}
+		doc["d1"] = d1any
+	}
 	observedWrite := false
 	everSet := map[string]bool{}
 	var history []string
@@ -151,6 +166,13 @@ func c20Run(c *fw.Case) {
 				} else {
 					items = append(items, c20Item{kind: "get", key: k, alias: fmt.Sprintf("g%d", i)})
 				}
+				continue
+			}
+			if force == "set.case-arm" && i == 0 || c.Chance(0.1) {
+				// a register written in one arm of a CASE: only the arm that is taken writes
+				items = append(items, c20Item{kind: "caseset", cond: pg.Gen(), key: k, expr: gen.ColRef{Name: gen.Pick(c.R, []string{"rid", "n1", "s1"})},
+					key2: gen.Pick(c.R, keys), expr2: gen.ColRef{Name: gen.Pick(c.R, []string{"rid", "n2", "s1"})}})
+				feats = append(feats, "set.case-arm")
 				continue
 			}
 			switch c.Intn(5) {
@@ -203,6 +225,8 @@ func c20Run(c *fw.Case) {
 		parts := make([]string, len(items))
 		for i, it := range items {
 			switch it.kind {
+			case "caseset":
+				parts[i] = "CASE WHEN " + gen.RenderPred(it.cond, ro) + " THEN SETVAR(" + keySQL(it.key) + ", " + gen.RenderExpr(it.expr, ro) + ") ELSE SETVAR(" + keySQL(it.key2) + ", " + gen.RenderExpr(it.expr2, ro) + ") END"
 			case "set":
 				parts[i] = "SETVAR(" + keySQL(it.key) + ", " + gen.RenderExpr(it.expr, ro) + ")"
 			case "subget":
@@ -246,6 +270,38 @@ func c20Run(c *fw.Case) {
 			}
 			sql += " ORDER BY " + key + gen.Pick(c.R, []string{"", " ASC", " DESC"})
 		}
+		// DISTINCT drops repeated output rows; every source row is still evaluated
+		distinct := !dual && !ordered && len(d1) > 0 && (force == "distinct" && qi == 0 || force == "" && c.Chance(0.1))
+		if distinct {
+			// few distinct output rows: one small-domain column next to the register writes
+			var kept []c20Item
+			for _, it := range items {
+				if it.kind == "set" || it.kind == "caseset" {
+					kept = append(kept, it)
+				}
+			}
+			// (the source rows repeat as a whole: table d1 has no row ids)
+			for i := range kept {
+				kept[i].kind, kept[i].expr = "set", gen.ColRef{Name: gen.Pick(c.R, []string{"s1", "b1"})}
+			}
+			items = append([]c20Item{{kind: "col", col: "b1"}}, kept...)
+			items = append(items, c20Item{kind: "set", key: keys[0], expr: gen.ColRef{Name: "s1"}})
+			where = nil
+			rowsOf = d1
+			parts = parts[:0]
+			for _, it := range items {
+				switch it.kind {
+				case "caseset":
+					parts = append(parts, "CASE WHEN "+gen.RenderPred(it.cond, ro)+" THEN SETVAR("+keySQL(it.key)+", "+gen.RenderExpr(it.expr, ro)+") ELSE SETVAR("+keySQL(it.key2)+", "+gen.RenderExpr(it.expr2, ro)+") END")
+				case "set":
+					parts = append(parts, "SETVAR("+keySQL(it.key)+", "+gen.RenderExpr(it.expr, ro)+")")
+				default:
+					parts = append(parts, it.col)
+				}
+			}
+			sql = "SELECT DISTINCT " + strings.Join(parts, ", ") + " FROM d1"
+			feats = append(feats, "distinct")
+		}
 		history = append(history, sql)
 		// model
 		var want []any
@@ -264,6 +320,17 @@ func c20Run(c *fw.Case) {
 			out := map[string]any{}
 			setInRow := map[string]bool{}
 			for _, it := range items {
+				if it.kind == "caseset" {
+					taken, err := ref.EvalPred(it.cond, env)
+					if err != nil {
+						c.Discard("reference: " + err.Error())
+						return
+					}
+					it.kind = "set"
+					if !taken {
+						it.key, it.expr = it.key2, it.expr2
+					}
+				}
 				switch it.kind {
 				case "set":
 					v, err := ref.EvalExpr(it.expr, env)
@@ -315,6 +382,9 @@ func c20Run(c *fw.Case) {
 				}
 			}
 			want = append(want, out)
+		}
+		if distinct {
+			want = dedupFirst(want)
 		}
 		plan = append(plan, c20Step{sql: sql, want: want, store: val.CopyMap(model), ordered: ordered})
 	}
@@ -484,7 +554,6 @@ func c20Grouped(c *fw.Case) {
 	}
 }
 
-
 // c20Union: registers on both sides of a UNION ALL. The rows of the left
 // branch come first and are evaluated first, whatever the right branch is made
 // of (a derived table, a CTE, a parenthesised union): a counter incremented per
@@ -546,7 +615,6 @@ func c20Union(c *fw.Case) {
 	}
 	c.Nontrivial(sql + val.Canon(doc))
 }
-
 
 // c20Reexec: a predicate that reads only a register. One Query kept and
 // executed again after another query (given the same map) changed the register
